@@ -31,7 +31,7 @@ RULE = ('session: 300 (quick) / 3500 (thorough) histories of 5..60 (quick) / 5..
         'bound), check_in (flag, URLResult), update_one, release, remove_many, add_visits, get_revisit_id, count, '
         'get_all, get_one, contains, get_hostnames, close+reopen; URLs from a per-history pool of 4..9 (collisions '
         'common) made of plain, IDN/Unicode, unparseable, empty, NUL-containing and lone-surrogate strings plus fresh '
-        'arbitrary Unicode strings; property strings arbitrary Unicode (incl. empty, NUL, astral, surrogates), integers '
+        'arbitrary Unicode strings, and near twins of pool members (ASCII case of path / query / whole URL, percent-escape case, trailing blank, NFC vs NFD) in 60 % of the pools — also the 2 URLs of the exhaustive alphabet and a bigbatch style; property strings arbitrary Unicode (incl. empty, NUL, astral, surrogates), integers '
         '0..5, 2^31, 2^63-1 and (rarely) >= 2^63; table variants memory/disk/generic x bare/wrapped; half of the '
         'histories are probing: 2..4 plain URLs, all added and partly checked out, then query / state change / '
         '(reopen) / same query triples where the query asks check_out for the status the change produces '
@@ -496,7 +496,26 @@ class VisitOracle:
 
 # ------------------------------------------------------------------ generation
 PLAIN = ['http://a/', 'http://a/x', 'http://b/', 'https://b/y?q=1', 'http://c.example/', 'ftp://d/f', 'http://a/é',
-         'http://ü.example/p', 'http://a/\U0001F600', 'HTTP://E/', 'http://a/x y', 'file:///tmp/x']
+         'http://ü.example/p', 'http://a/\U0001F600', 'HTTP://E/', 'http://a/x y', 'file:///tmp/x',
+         # near twins: keys that a collation / normalisation would merge (ASCII case in path, query, scheme+host;
+         # percent-escape case; trailing blank; NFC vs NFD) must stay different keys
+         'http://a/X', 'https://b/y?Q=1', 'http://c.example/wiki/Python', 'http://c.example/wiki/python',
+         'http://e/', 'http://a/%2f', 'http://a/%2F', 'http://a/x ', 'http://a/e\u0301', 'http://A/x']
+
+
+def near_twin(rng, u):
+    """a different string that a case-folding / trimming / normalising key comparison would merge with u"""
+    i = u.find('://')
+    j = u.find('/', i + 3) if i >= 0 else -1
+    r = rng.random()
+    if r < 0.6 and j >= 0 and u[j:].swapcase() != u[j:]:
+        return u[:j] + u[j:].swapcase()          # path / query case (what arrives from real pages)
+    if r < 0.75 and u.swapcase() != u:
+        return u.swapcase()
+    if r < 0.9:
+        return u + ' '
+    return u.upper() if u.upper() != u else u + '/'
+
 ODD = ['', 'abc', 'http://[/', 'http://a/\x00z', 'http://s/\udc80', '\ud800', 'mailto:x@y', '//a/b', ' http://a/',
        'http://a/\n']
 
@@ -736,6 +755,12 @@ def gen_session(rng, maxlen):
     probing = rng.random() < 0.5
     if probing:
         pool = rng.sample(PLAIN, rng.randrange(2, 5))
+    if rng.random() < 0.6:
+        # near twins of pool members (bare and wrapper streams alike)
+        for _ in range(rng.randrange(1, 3)):
+            t = near_twin(rng, rng.choice(pool))
+            if not any(0xd800 <= ord(c) <= 0xdfff for c in t) and (not probing or parse_host(t)[0] == 'H'):
+                pool.append(t)
     n = rng.randrange(5, maxlen + 1)
     ops = []
     if probing:
@@ -757,7 +782,7 @@ def gen_session(rng, maxlen):
 # ------------------------------------------------------------------ large batches (size boundaries)
 BIG_SIZES_QUICK = [(1, 'plain'), (499, 'plain'), (500, 'plain'), (501, 'plain'), (502, 'dups'), (1000, 'plain'),
                    (1001, 'mixed'), (1003, 'dups'), (1503, 'plain'), (167, 'props'), (168, 'props'), (335, 'props'),
-                   (260, 'mixed')]
+                   (260, 'mixed'), (60, 'twins')]
 BIG_SIZES_THOROUGH = BIG_SIZES_QUICK + [(n, st) for n in (2, 250, 499, 500, 501, 503, 999, 1000, 1001, 1002, 1500,
                                                            1502, 1504, 2004, 2506)
                                         for st in ('plain', 'mixed', 'dups')] + \
@@ -774,6 +799,8 @@ def gen_big(rng, n, style):
     for i, u in enumerate(urls):
         if style == 'dups' and i > 3 and rng.random() < 0.1:
             u = urls[rng.randrange(i)]
+        if style == 'twins' and i % 2 == 1:
+            u = urls[i - 1].replace('/p', '/P')
         if style == 'props' or (style == 'mixed' and rng.random() < 0.5):
             props = {'parent_url': 'http://par.example/%d/%d' % (tag, i) if rng.random() < 0.7 else urls[0],
                      'root_url': 'http://root.example/%d/%d' % (tag, i) if rng.random() < 0.5 else urls[0],
@@ -793,7 +820,8 @@ def gen_big(rng, n, style):
 
 
 # ------------------------------------------------------------------ exhaustive short histories
-XA, XB = 'http://a/', 'http://b/x'
+# the two URLs of the alphabet are case twins in the path: they must behave as two keys
+XA, XB = 'http://a/wiki/Python', 'http://a/wiki/python'
 
 
 def exhaustive_cases(thorough):
